@@ -3,6 +3,7 @@
    i.e. all message counts and all interleavings of sender, receiver, canceller, closer. *)
 From Coq Require Import ZArith List Bool Lia.
 From Grpchan Require Import gen.Inproc model.Chan1 proofs.Chan1.
+From Grpchan Require model.InprocStream proofs.StreamInv proofs.StreamOrder proofs.StreamDeliver.
 Import ListNotations.
 Close Scope Z_scope.
 
@@ -24,3 +25,46 @@ Print Assumptions C01_fifo.
 
 Theorem C01_example : exists s, reachable 1 s /\ length (sent_ok s) = 2 /\ length (taken s) = 1 /\ got s = [7%Z].
 Proof. exact tight_run. Qed.
+
+(* ---- the COMPLETE in-process stream (model/InprocStream.v): both directions, header / trailer /
+   error frames, Header() peeks, single-response probing, cancellation and deadline, and every
+   interleaving of the client's sender, closer and receiver with the handler.  lreach is
+   reachability with ghost histories of both channels and a log of what every operation returned. *)
+
+(* responses: what the client's RecvMsg calls have returned is, in order, a prefix of what the
+   handler's SendMsg calls put on the channel -- the sends acknowledged with nil followed by at
+   most one send that reported the end of the handler's context *)
+Theorem C01_full_stream_responses : forall rs s h,
+  StreamDeliver.lreach rs s h ->
+  exists unacked rest,
+    StreamDeliver.handler_acked (StreamDeliver.lg h) ++ unacked = StreamDeliver.client_msgs (StreamDeliver.lg h) ++ rest /\
+    length unacked <= 1.
+Proof. exact StreamDeliver.response_delivery. Qed.
+Print Assumptions C01_full_stream_responses.
+
+(* requests: what the handler's RecvMsg calls have returned is a prefix of what the client's
+   SendMsg calls put on the channel; unacknowledged ones exist only once the caller's context ended *)
+Theorem C01_full_stream_requests : forall rs s h,
+  StreamDeliver.lreach rs s h ->
+  exists unacked rest,
+    StreamDeliver.client_acked (StreamDeliver.lg h) ++ unacked = StreamDeliver.handler_msgs (StreamDeliver.lg h) ++ rest /\
+    (unacked <> [] -> InprocStream.cctx s <> 0%Z).
+Proof. exact StreamDeliver.request_delivery. Qed.
+Print Assumptions C01_full_stream_requests.
+
+(* the channels lose, duplicate and reorder nothing: pushed = popped ++ still queued *)
+Theorem C01_full_stream_conservation : forall rs s h,
+  StreamDeliver.lreach rs s h ->
+  StreamDeliver.hp h = (StreamDeliver.hq h ++ InprocStream.respQ s)%list /\
+  StreamDeliver.rp h = (StreamDeliver.rq h ++ InprocStream.reqQ s)%list.
+Proof.
+  intros rs s h R. split.
+  - exact (StreamOrder.conservation _ _ _ _ (StreamDeliver.lreach_hreach _ _ _ R)).
+  - exact (StreamDeliver.conservation_requests _ _ _ R).
+Qed.
+Print Assumptions C01_full_stream_conservation.
+
+(* the ghost histories restrict nothing: every reachable state carries them *)
+Theorem C01_full_stream_total : forall rs s, StreamInv.reachable rs s -> exists h, StreamDeliver.lreach rs s h.
+Proof. exact StreamDeliver.reachable_has_log. Qed.
+Print Assumptions C01_full_stream_total.
